@@ -1,0 +1,133 @@
+//go:build verif
+
+package bs
+
+// Contracts checked by /verif (vcgo). Comment-only: no executable code.
+// Thresholds are written as the literals of the property statement (C10), not as the package variables.
+
+//@ func checkLazyElement
+//@ requires badSmellList != nil
+//@ modifies *badSmellList
+//@ ensures node.Type == "Class" && len(node.Functions) < 1 ==> Extends(*badSmellList, old(*badSmellList), 1) &&
+//@     (*badSmellList)[len(old(*badSmellList))].Bs == "lazyElement" && (*badSmellList)[len(old(*badSmellList))].File == node.FilePath
+//@ ensures !(node.Type == "Class" && len(node.Functions) < 1) ==> *badSmellList == old(*badSmellList)
+
+//@ func checkLongMethod
+//@ requires badSmellList != nil
+//@ modifies *badSmellList
+//@ ensures method.Position.StopLine - method.Position.StartLine > 30 ==> Extends(*badSmellList, old(*badSmellList), 1) &&
+//@     (*badSmellList)[len(old(*badSmellList))].Bs == "longMethod" &&
+//@     (*badSmellList)[len(old(*badSmellList))].File == node.FilePath &&
+//@     (*badSmellList)[len(old(*badSmellList))].Line == Itoa(method.Position.StartLine) &&
+//@     (*badSmellList)[len(old(*badSmellList))].Size == method.Position.StopLine - method.Position.StartLine
+//@ ensures method.Position.StopLine - method.Position.StartLine <= 30 ==> *badSmellList == old(*badSmellList)
+
+//@ func checkLongParameterList
+//@ requires badSmellList != nil
+//@ modifies *badSmellList
+//@ ensures len(method.Parameters) > 5 ==> Extends(*badSmellList, old(*badSmellList), 1) &&
+//@     (*badSmellList)[len(old(*badSmellList))].Bs == "longParameterList" &&
+//@     (*badSmellList)[len(old(*badSmellList))].File == node.FilePath &&
+//@     (*badSmellList)[len(old(*badSmellList))].Line == Itoa(method.Position.StartLine) &&
+//@     (*badSmellList)[len(old(*badSmellList))].Size == len(method.Parameters)
+//@ ensures len(method.Parameters) <= 5 ==> *badSmellList == old(*badSmellList)
+
+//@ func checkLargeClass
+//@ requires badSmellList != nil
+//@ modifies *badSmellList
+//@ ensures node.Type == "Class" && CntNGS(node.Functions, len(node.Functions)) >= 20 ==> Extends(*badSmellList, old(*badSmellList), 1) &&
+//@     (*badSmellList)[len(old(*badSmellList))].Bs == "largeClass" &&
+//@     (*badSmellList)[len(old(*badSmellList))].File == node.FilePath &&
+//@     (*badSmellList)[len(old(*badSmellList))].Size == CntNGS(node.Functions, len(node.Functions))
+//@ ensures !(node.Type == "Class" && CntNGS(node.Functions, len(node.Functions)) >= 20) ==> *badSmellList == old(*badSmellList)
+
+//@ func checkDataClass
+//@ requires badSmellList != nil
+//@ modifies *badSmellList
+//@ ensures onlyHaveGetterAndSetter && node.Type == "Class" && len(node.Functions) > 0 ==> Extends(*badSmellList, old(*badSmellList), 1) &&
+//@     (*badSmellList)[len(old(*badSmellList))].Bs == "dataClass" &&
+//@     (*badSmellList)[len(old(*badSmellList))].File == node.FilePath &&
+//@     (*badSmellList)[len(old(*badSmellList))].Size == len(node.Functions)
+//@ ensures !(onlyHaveGetterAndSetter && node.Type == "Class" && len(node.Functions) > 0) ==> *badSmellList == old(*badSmellList)
+
+//@ spec RSw(m bs_domain.BSFunction) int := (m.FunctionBS.IfSize >= 8 ? 1 : 0) + (m.FunctionBS.SwitchSize >= 8 ? 1 : 0)
+
+//@ func checkRepeatedSwitches
+//@ requires badSmellList != nil
+//@ modifies *badSmellList
+//@ ensures Extends(*badSmellList, old(*badSmellList), RSw(method))
+//@ ensures forall k int :: {(*badSmellList)[k]} len(old(*badSmellList)) <= k && k < len(*badSmellList) ==>
+//@     (*badSmellList)[k].Bs == "repeatedSwitches" && (*badSmellList)[k].File == node.FilePath && (*badSmellList)[k].Line == Itoa(method.Position.StartLine)
+//@ ensures method.FunctionBS.IfSize >= 8 ==> (*badSmellList)[len(old(*badSmellList))].Size == method.FunctionBS.IfSize && (*badSmellList)[len(old(*badSmellList))].Description == "ifSize"
+//@ ensures method.FunctionBS.SwitchSize >= 8 ==> (*badSmellList)[len(*badSmellList) - 1].Size == method.FunctionBS.SwitchSize && (*badSmellList)[len(*badSmellList) - 1].Description == "switchSize"
+
+//@ spec CntCplx(infos []bs_domain.IfParInfo, n int) int
+//@ axiom CntCplx_zero: forall infos []bs_domain.IfParInfo :: {CntCplx(infos, 0)} CntCplx(infos, 0) == 0
+//@ axiom CntCplx_step: forall infos []bs_domain.IfParInfo, n int :: {CntCplx(infos, n + 1)} n >= 0 ==>
+//@    CntCplx(infos, n + 1) == CntCplx(infos, n) + (infos[n].EndLine - infos[n].StartLine >= 3 ? 1 : 0)
+
+//@ func checkComplexIf
+//@ requires badSmellList != nil
+//@ modifies *badSmellList
+//@ ensures Extends(*badSmellList, old(*badSmellList), CntCplx(method.FunctionBS.IfInfo, len(method.FunctionBS.IfInfo)))
+//@ ensures forall k int :: {(*badSmellList)[k]} len(old(*badSmellList)) <= k && k < len(*badSmellList) ==>
+//@     (*badSmellList)[k].Bs == "complexCondition" && (*badSmellList)[k].File == node.FilePath
+//@ ensures forall i int :: {method.FunctionBS.IfInfo[i]} 0 <= i && i < len(method.FunctionBS.IfInfo) && method.FunctionBS.IfInfo[i].EndLine - method.FunctionBS.IfInfo[i].StartLine >= 3 ==>
+//@     (*badSmellList)[len(old(*badSmellList)) + CntCplx(method.FunctionBS.IfInfo, i)].Line == Itoa(method.FunctionBS.IfInfo[i].StartLine)
+//@ loop 1 invariant Extends(*badSmellList, old(*badSmellList), CntCplx(method.FunctionBS.IfInfo, #i))
+//@ loop 1 invariant forall k int :: {(*badSmellList)[k]} len(old(*badSmellList)) <= k && k < len(*badSmellList) ==>
+//@     (*badSmellList)[k].Bs == "complexCondition" && (*badSmellList)[k].File == node.FilePath
+//@ loop 1 invariant forall i int :: {method.FunctionBS.IfInfo[i]} 0 <= i && i < #i && method.FunctionBS.IfInfo[i].EndLine - method.FunctionBS.IfInfo[i].StartLine >= 3 ==>
+//@     CntCplx(method.FunctionBS.IfInfo, i) < CntCplx(method.FunctionBS.IfInfo, #i) &&
+//@     (*badSmellList)[len(old(*badSmellList)) + CntCplx(method.FunctionBS.IfInfo, i)].Line == Itoa(method.FunctionBS.IfInfo[i].StartLine)
+//@ loop 1 invariant CntCplx(method.FunctionBS.IfInfo, #i) >= 0
+
+//@ spec RB(n bs_domain.BSDataStruct) int := (n.Extend != "" && HasSuper(n, len(n.FunctionCalls))) ? 1 : 0
+
+//@ func checkRefusedBequest
+//@ requires badSmellList != nil
+//@ modifies *badSmellList
+//@ ensures Extends(*badSmellList, old(*badSmellList), RB(node))
+//@ ensures RB(node) == 1 ==> (*badSmellList)[len(old(*badSmellList))].Bs == "refusedBequest" && (*badSmellList)[len(old(*badSmellList))].File == node.FilePath
+
+//@ func checkConnectedGraphCall
+//@ requires badSmellList != nil
+//@ modifies *badSmellList
+//@ ensures len(*badSmellList) >= len(old(*badSmellList))
+//@ ensures forall k int :: {(*badSmellList)[k]} 0 <= k && k < len(old(*badSmellList)) ==> (*badSmellList)[k] == old(*badSmellList)[k]
+//@ ensures forall k int :: {(*badSmellList)[k]} len(old(*badSmellList)) <= k && k < len(*badSmellList) ==> (*badSmellList)[k].Bs == "graphConnectedCall"
+//@ loop 3 invariant len(*badSmellList) >= len(old(*badSmellList))
+//@ loop 3 invariant forall k int :: {(*badSmellList)[k]} 0 <= k && k < len(old(*badSmellList)) ==> (*badSmellList)[k] == old(*badSmellList)[k]
+//@ loop 3 invariant forall k int :: {(*badSmellList)[k]} len(old(*badSmellList)) <= k && k < len(*badSmellList) ==> (*badSmellList)[k].Bs == "graphConnectedCall"
+
+//@ spec MethCnt(m bs_domain.BSFunction) int := (m.Position.StopLine - m.Position.StartLine > 30 ? 1 : 0) + (len(m.Parameters) > 5 ? 1 : 0) +
+//@     RSw(m) + CntCplx(m.FunctionBS.IfInfo, len(m.FunctionBS.IfInfo))
+//@ spec MethSum(fs []bs_domain.BSFunction, n int) int
+//@ axiom MethSum_zero: forall fs []bs_domain.BSFunction :: {MethSum(fs, 0)} MethSum(fs, 0) == 0
+//@ axiom MethSum_step: forall fs []bs_domain.BSFunction, n int :: {MethSum(fs, n + 1)} n >= 0 ==> MethSum(fs, n + 1) == MethSum(fs, n) + MethCnt(fs[n])
+//@ spec AllGS(fs []bs_domain.BSFunction, n int) bool
+//@ axiom AllGS_zero: forall fs []bs_domain.BSFunction :: {AllGS(fs, 0)} AllGS(fs, 0)
+//@ axiom AllGS_step: forall fs []bs_domain.BSFunction, n int :: {AllGS(fs, n + 1)} n >= 0 ==> (AllGS(fs, n + 1) <==> (AllGS(fs, n) && IsGS(fs[n].CodeFunction)))
+//@ spec NodeCnt(n bs_domain.BSDataStruct) int := ((n.Type == "Class" && len(n.Functions) < 1) ? 1 : 0) + MethSum(n.Functions, len(n.Functions)) +
+//@     ((AllGS(n.Functions, len(n.Functions)) && n.Type == "Class" && len(n.Functions) > 0) ? 1 : 0) + RB(n) +
+//@     ((n.Type == "Class" && CntNGS(n.Functions, len(n.Functions)) >= 20) ? 1 : 0)
+//@ spec Tot(ns []bs_domain.BSDataStruct, n int) int
+//@ axiom Tot_zero: forall ns []bs_domain.BSDataStruct :: {Tot(ns, 0)} Tot(ns, 0) == 0
+//@ axiom Tot_step: forall ns []bs_domain.BSDataStruct, n int :: {Tot(ns, n + 1)} n >= 0 ==> Tot(ns, n + 1) == Tot(ns, n) + NodeCnt(ns[n])
+
+//@ func AnalysisBadSmell
+//@ ensures len(result) >= Tot(nodes, len(nodes))
+//@ ensures forall k int :: {result[k]} Tot(nodes, len(nodes)) <= k && k < len(result) ==> result[k].Bs == "graphConnectedCall"
+//@ loop 1 invariant len(badSmellList) == Tot(nodes, #i)
+//@ loop 2 invariant len(badSmellList) == Tot(nodes, #i1) + ((node.Type == "Class" && len(node.Functions) < 1) ? 1 : 0) + MethSum(node.Functions, #i)
+//@ loop 2 invariant onlyHaveGetterAndSetter <==> AllGS(node.Functions, #i)
+
+//@ spec MemStr(xs []string, n int, s string) bool
+//@ axiom MemStr_zero: forall xs []string, s string :: {MemStr(xs, 0, s)} !MemStr(xs, 0, s)
+//@ axiom MemStr_step: forall xs []string, n int, s string :: {MemStr(xs, n + 1, s)} n >= 0 ==> (MemStr(xs, n + 1, s) <==> (MemStr(xs, n, s) || xs[n] == s))
+
+//@ func BadSmellApp.IdentifyBadSmell
+//@ requires nodeInfos != nil
+//@ ensures forall k int :: {result[k]} 0 <= k && k < len(result) ==> !MemStr(ignoreRules, len(ignoreRules), result[k].Bs)
+//@ loop 1 invariant forall s string :: {MemStr(ignoreRules, #i, s)} mapIgnoreRules[s] <==> MemStr(ignoreRules, #i, s)
+//@ loop 1 invariant mapIgnoreRules != nil
